@@ -124,14 +124,14 @@ package commonmark
 //@ -- ConsumeIndent(n) consumes exactly n columns of the white space after the cursor: it cannot run past the
 //@ -- indentation (the panic is unreachable) when n is at most what Indent() reports, and afterwards Indent() reports n less
 //@ func (*lineParser).ConsumeIndent
-//@   requires !isnil(p) && CursorOK(p) && 0 <= n && n <= IndentCols(p)
+//@   requires !isnil(p) && CursorOK(p) && n <= IndentCols(p)
 //@   modifies p.i, p.col, p.tabRemaining, p.state
 //@   ensures[ok] CursorOK(p) && old(p.i) <= p.i
-//@   ensures[remaining] IndentCols(p) == old(IndentCols(p)) - n
+//@   ensures[remaining] IndentCols(p) == old(IndentCols(p)) - max(n, 0)
 //@   ensures[run] p.i + IL(p.line, p.i) == old(p.i) + IL(p.line, old(p.i))
 //@   ensures[line] aliases(p.line, old(p.line)) && len(p.line) == len(old(p.line))
-//@   loop 0: invariant[ok] !isnil(p) && CursorOK(p) && 0 <= n && n <= IndentCols(p) && old(p.i) <= p.i
-//@   loop 0: invariant[acct] IndentCols(p) - n == old(IndentCols(p)) - old(n)
+//@   loop 0: invariant[ok] !isnil(p) && CursorOK(p) && n <= IndentCols(p) && old(p.i) <= p.i && (old(n) < 0 ==> n == old(n))
+//@   loop 0: invariant[acct] IndentCols(p) - max(n, 0) == old(IndentCols(p)) - max(old(n), 0)
 //@   loop 0: invariant[run] p.i + IL(p.line, p.i) == old(p.i) + IL(p.line, old(p.i))
 //@   loop 0: invariant[frame] framed()
 //@   loop 0: decreases n
@@ -226,4 +226,37 @@ package commonmark
 //@   modifies everything
 //@   havoccall (*lineParser).TipKind, (*lineParser).OpenBlock keeps lineParser.i, lineParser.col, lineParser.line, lineParser.tabRemaining, elems:byte
 //@   callsite (*lineParser).OpenBlock: requires[kind] $1 == IndentedCodeBlockKind
+//@   serves C04
+
+// ---------------------------------------------------------------------------
+// Continuation rules (the match closures of blockRules) over the cursor (C04):
+// every ConsumeIndent / Advance / CollectInline call satisfies its contract,
+// so their panics are unreachable on continuation lines as well.
+// ---------------------------------------------------------------------------
+
+//@ func closure((*lineParser).ListItemContainerHasChildren)
+//@   requires !isnil(p) && CursorOK(p) && !isnil(p.container)
+//@   modifies p.i, p.col, p.tabRemaining, p.state
+//@   ensures[cursor] CursorOK(p)
+//@   serves C04
+
+//@ func closure(hasBytePrefix&(*lineParser).Advance&!(*lineParser).OpenBlock)
+//@   requires !isnil(p) && CursorOK(p)
+//@   modifies p.i, p.col, p.tabRemaining, p.state
+//@   ensures[cursor] CursorOK(p)
+//@   callsite (*lineParser).ConsumeIndent: use IndentCols_zero(p.line, p.i + 1, p.col + 1)
+//@   callsite (*lineParser).ConsumeIndent: use IndentCols_zero(p.line, p.i + 1, p.col + p.tabRemaining)
+//@   serves C04
+
+//@ func closure(parseCodeFence&(*lineParser).ContainerCodeFence)
+//@   requires !isnil(p) && CursorOK(p) && !isnil(p.container)
+//@   modifies p.i, p.col, p.tabRemaining, p.state
+//@   ensures[cursor] CursorOK(p)
+//@   unclaimed pre@parseCodeFence the line handed to the recogniser has at most one line ending, at its end (established by readline; not carried through the block-structure code)
+//@   serves C04
+
+//@ func closure((*lineParser).IsRestBlank&(*lineParser).ConsumeIndent&!(*lineParser).ContainerIndent&!(*lineParser).TipKind&!parseListMarker)
+//@   requires !isnil(p) && CursorOK(p)
+//@   modifies p.i, p.col, p.tabRemaining, p.state
+//@   ensures[cursor] CursorOK(p)
 //@   serves C04
